@@ -149,6 +149,30 @@ impl Handler<GetState> for FakeRepl {
     }
 }
 
+/// A peer that answers `GetState` with scripted raw bytes (C19: a CRC-valid reply whose ENVELOPE is not a valid archive).
+struct RawRepl {
+    reply: Vec<u8>,
+}
+
+impl RpcService for RawRepl {
+    fn service_name() -> &'static str {
+        <ReplicationService<Store> as RpcService>::service_name()
+    }
+
+    fn register_handlers(registry: &mut ServiceRegistry<Self>) {
+        registry.add_handler::<GetState>();
+    }
+}
+
+#[datacake_rpc::async_trait]
+impl Handler<GetState> for RawRepl {
+    type Reply = datacake_rpc::Body;
+
+    async fn on_message(&self, _msg: Request<GetState>) -> Result<Self::Reply, Status> {
+        Ok(datacake_rpc::Body::from(self.reply.clone()))
+    }
+}
+
 impl ClusterDomain {
     async fn read_node(&self, j: usize) -> String {
         let n = &self.nodes[j];
@@ -851,6 +875,46 @@ impl Domain for ClusterDomain {
                     None => "timeout".into(),
                     Some(Err(_)) => "rejected".into(),
                     Some(Ok((_, set))) => format!("accepted {}", hex(dump_set(&set).as_bytes()).len()),
+                }
+            },
+            "badenvelope" => {
+                // badenvelope <j> <kind> <n>: node j asks a peer whose GetState reply is the byte-exact honest reply for a set of
+                // `n` entries with ONE field of the envelope changed and the CRC recomputed:
+                //   len  - the declared length of the nested set bytes is 1 GiB
+                //   ptr  - the relative pointer to the nested set bytes points far outside the message
+                //   ok   - nothing changed (control: accepted)
+                let (j, kind, n) = (u(1), t[2], p_u64(t[3]));
+                let mut set = datacake_crdt::OrSWotSet::<2>::default();
+                for k in 0..n {
+                    set.insert_with_source(0, k, HLCTimestamp::new(Duration::from_secs(5000 + k), 0, 7));
+                }
+                let nested = rkyv::to_bytes::<_, 4096>(&set).expect("ser").to_vec();
+                let honest = KeyspaceOrSwotSet { timestamp: HLCTimestamp::now(0, 250), last_updated: HLCTimestamp::now(0, 250), set: nested };
+                let mut reply = datacake_rpc::to_view_bytes(&honest).expect("view").to_vec();
+                let end = reply.len();
+                // .. | timestamp u64 | last_updated u64 | set.ptr i32 | set.len u32 | crc32 u32
+                match kind {
+                    "len" => reply[end - 8..end - 4].copy_from_slice(&(1u32 << 30).to_le_bytes()),
+                    "ptr" => reply[end - 12..end - 8].copy_from_slice(&(0x7000_0000i32).to_le_bytes()),
+                    _ => {},
+                }
+                let crc = crc32fast::hash(&reply[..end - 4]);
+                reply[end - 4..].copy_from_slice(&crc.to_le_bytes());
+                if let Some((s, _)) = self.fake.take() {
+                    s.shutdown();
+                }
+                let (addr, server) = rt.block_on(crate::rpc::listen_free());
+                server.add_service(RawRepl { reply });
+                self.fake = Some((server, addr));
+                let src = &self.nodes[j];
+                let r = rt.block_on(async {
+                    let mut client = ReplicationClient::<Store>::new(src.clock.clone(), Channel::connect(addr));
+                    tmo(client.get_state(&ksn())).await
+                });
+                match r {
+                    None => "timeout".into(),
+                    Some(Err(_)) => "rejected".into(),
+                    Some(Ok((_, set))) => format!("accepted {}", dump_set(&set).split(" D ").next().map(|e| e.matches(":").count()).unwrap_or(0)),
                 }
             },
             _ => "bad-op".into(),
